@@ -1,12 +1,19 @@
 """C16 -- every allocation is released exactly once; nothing is used after release.
 
 PARTIAL (DESIGN.md C16).
-Proof: coq/Properties_C16.v -- the ownership ledger of the block-heap model of Array / String /
-       StringStream (coq/SeqModel.v, the model of the C14 theorems): for EVERY operation history
-       no block is released twice, nothing unallocated is released, every live block has exactly
-       one owner, and after destroying every object of the pool no block is live.
-       Value trees, hash tables, tag records and the parsers' failure paths have no heap in the
-       existing models: they are covered by the runtime ledger below only.
+Proof: coq/Properties_C16.v
+       (1) the ownership ledger of the block-heap model of Array / String / StringStream (coq/SeqModel.v,
+       the model of the C14 theorems): for EVERY operation history no block is released twice, nothing
+       unallocated is released, every live block has exactly one owner, and after destroying every object
+       of the pool no block is live.
+       (2) an ownership model of Value trees (coq/LedgerValueModel.v: object -> HArray storage + key blocks +
+       member values, array -> element block + elements, string -> character block, pointer -> nothing;
+       assignment by copy / move incl. from an own member (D40) and from an ancestor, get-or-create, append,
+       Merge by copy / move, Remove / RemoveIndex, Compress, Reset, destruction, in the order of the C++):
+       for every history on a pool of variables the run never releases or reads a dead block, every block is
+       owned exactly as often as it is live, and destroying the pool leaves no live block.
+       Hash-table internals, tag records, expression lists and the parsers' failure paths have no ownership
+       model: they are covered by the runtime ledger below only.
 Tie / runtime: the library's own allocator seam (Memory::Allocate / Deallocate call MemoryRecord
        when QENTEM_Q_TEST_H is defined; cpp/ledger.hpp keeps a pointer set).  Drivers built with
        -DVERIF_LEDGER=1 print per case ONLY the verdict
@@ -14,6 +21,7 @@ Tie / runtime: the library's own allocator seam (Memory::Allocate / Deallocate c
        and a correct case prints L:n:0:0:0.  ASan (double free, use after free) and LeakSanitizer
        stay on as the supporting search.  Families:
          seq    C14 histories (Array<int>, Array<String>, String, StringStream, StringView)
+         nested Array<Node> with nested Array<Node>: = / += whose source lives inside the destination (D52)
          value  C12 Value histories (copy, move, own-member assignment, Merge, Remove, Compress, pointers)
          htab   C13 hash-table histories (resize, remove, rename, merge by move, sort, copy)
          json   valid documents and every kind of rejected text (prefixes, damaged brackets, soup)
@@ -37,6 +45,7 @@ L_RE = re.compile(r"^L:(\d+):(\d+):(\d+):(-?\d+)$")
 # name -> (binary name, source, extra defines, extra flags)
 DRIVERS = {
     "seq": ("drv_ledger_seq", "drv_ledger_seq.cpp", [], []),
+    "nested": ("drv_nested_ledger", "drv_nested.cpp", [], []),
     "value": ("drv_value_ledger", "drv_value.cpp", [], []),
     "htab": ("drv_htab_ledger", "drv_htab.cpp", [], []),
     "json": ("drv_json_ledger", "drv_json.cpp", [], []),
@@ -45,6 +54,7 @@ DRIVERS = {
 }
 FORMATS = {
     "seq": "<kind ai|as|s|t|v> <width> <op;op;...>   (cpp/drv_seq.cpp)",
+    "nested": "script of choices a,b,c,...: tree shape, then (op, index) pairs   (cpp/drv_nested.cpp: Array<Node> with nested Array<Node>; D52 shapes)",
     "value": "<mode> <history>   (cpp/drv_value.cpp, ocaml/value.ml)",
     "htab": "T <inst> <keys k0/k1/..> <ops>   (cpp/drv_htab.cpp)",
     "json": "<kind P|X|S|R> <width> <units | tree>   (cpp/drv_json.cpp)",
@@ -180,6 +190,12 @@ def gen_seq(rng, tier, boost=1):
             cases.append("%s %d %s" % (kind, w, ";".join(ops)))
             dist["seq_" + kind] = dist.get("seq_" + kind, 0) + 1
     return c14.corpus_cases() + cases, dist
+
+
+def gen_nested(rng, tier, boost=1):
+    """Array<Node> whose elements own nested Array<Node>: the right-hand side of = / += lives inside the destination (D52)"""
+    n = (3000 if tier == "quick" else 40000) * boost
+    return [",".join(str(rng.randrange(0, 50)) for _ in range(rng.choice([12, 24, 40]))) for _ in range(n)], {"nested_scripts": n}
 
 
 def gen_value(rng, tier, boost=1):
@@ -350,7 +366,7 @@ def gen_cache(rng, tier, boost=1):
     return cases, {"cache_scripts": n}
 
 
-GENS = [("seq", gen_seq), ("value", gen_value), ("htab", gen_htab), ("json", gen_json), ("tmpl", gen_tmpl), ("cache", gen_cache)]
+GENS = [("seq", gen_seq), ("nested", gen_nested), ("value", gen_value), ("htab", gen_htab), ("json", gen_json), ("tmpl", gen_tmpl), ("cache", gen_cache)]
 
 
 def corpus_cases():
@@ -373,6 +389,8 @@ def splitter(fam, case):
     tk = case.split(" ")
     if fam == "seq":
         return [t for t in tk[2].split(";") if t], lambda u: " ".join(tk[:2] + [";".join(u) if u else "-"])
+    if fam == "nested":
+        return parse_list(case), lambda u: fmt_list(u) if u else "0"
     if fam == "value":
         return tk[1].split(";"), lambda u: tk[0] + " " + (";".join(u) if u else "-")
     if fam == "htab":
@@ -466,6 +484,7 @@ def proof_stage(rep):
 
 TRUSTED = vlib.TRUSTED_BASE_COMMON[:2] + [
     "coq/SeqModel.v as the model of Array.hpp / String.hpp / StringStream.hpp (tied to the C++ by the C14 correspondence run); coq/LedgerModel.v adds only observers (owners, live blocks, destroy_all) and does not change the step functions",
+    "coq/LedgerValueModel.v as the ownership model of Value.hpp / HArray.hpp / HashTable.hpp (hand-written from the code after D29, D40v, D42v, D43v, D52, D63; NOT extracted and not run against the C++: how many blocks an object holds is policy, the model leaves growth / compaction to flags chosen by the history; the same operation families are exercised on the real code by the 'value', 'htab' and 'nested' ledger families)",
     "cpp/ledger.hpp + the QENTEM_Q_TEST_H seam of Include/Memory.hpp: every Memory::Allocate / Deallocate of the library passes through it (grep: the only ::operator new / delete of Include/ are there)",
     "C++ drivers under /verif/cpp (the interpreters of the C12/C13/C14/C05/C01 checks, rebuilt with -DVERIF_LEDGER=1; cpp/drv_ledger_cache.cpp), g++ 12 with ASan/LSan/UBSan, tools/*.py generators",
 ]
@@ -565,10 +584,11 @@ def check(tier):
         "oracle_failures": sum(v["verdict_failures"] for v in per_family.values()),
     })
     rep.assumptions = [
-        "the theorems are about the block-heap model coq/SeqModel.v (Array<int>, String, StringStream; the model of the C14 theorems) with the observers of coq/LedgerModel.v; Array<String> elements, Value trees, hash tables, tag records, expression lists and the JSON / template parsers' failure paths are NOT modelled with a heap: for them C16 rests on the runtime ledger + sanitizers reported here (finite search)",
+        "the theorems are about (1) the block-heap model coq/SeqModel.v (Array<int>, String, StringStream; the model of the C14 theorems) with the observers of coq/LedgerModel.v and (2) the ownership model of Value trees coq/LedgerValueModel.v; Array<String> elements, hash-table internals, tag records, expression lists and the JSON / template parsers' failure paths are NOT modelled: for them C16 rests on the runtime ledger + sanitizers reported here (finite search)",
+        "Value model: targets are value positions (variable, array element, value of an item); moving a value into one of its own members and Merge / append-of-a-value between a value and its own member or ancestor are outside the domain (no-ops in the model, skipped by the drivers); Value::Compress is the model's one-level OCompress applied at the node and then at every container child",
         "whether a destructor really runs, and use after release, are decided by the C++ runtime: covered by ASan / LSan on the generated cases, not by the theorems",
         "the ledger sees the library's allocator seam (Memory::Allocate / Deallocate); blocks adopted from or detached to the caller are allocated / released by the driver through the same seam",
-        "the tree is /repo with the lifetime repairs D19, D27, D29, D40v, D50, D51 applied (KNOWN_FINDINGS.txt)",
+        "the tree is /repo with the lifetime repairs D19, D27, D29, D40v, D50, D51, D52, D72, D80 applied (KNOWN_FINDINGS.txt)",
     ]
     return rep.finish()
 
